@@ -41,6 +41,14 @@ Theorem C14x_node_outputs_invariant : forall sys V V' off,
   block_sum (nN nodelist) off V' == block_sum (nN nodelist) off V.
 Proof. exact (node_outputs_invariant _ _ _ _ _ _ _ _ _ _ _ R). Qed.
 
+(* ... and so are R = sum_i (1 - X_i - Y_i) of the SIR systems and S = sum_i (1 - Y_i) of the SIS systems *)
+Theorem C14x_node_complement_outputs_invariant : forall sys V V', veq V' (perm_state idx nl2 sys V) ->
+  (sys = 1%nat \/ sys = 3%nat ->
+     sumn (nN nodelist) (fun i => 1 - vnth i V' - vnth (nN nodelist + i) V') ==
+     sumn (nN nodelist) (fun i => 1 - vnth i V - vnth (nN nodelist + i) V)) /\
+  (sys = 0%nat \/ sys = 2%nat -> sumn (nN nodelist) (fun i => 1 - vnth i V') == sumn (nN nodelist) (fun i => 1 - vnth i V)).
+Proof. exact (node_complement_outputs_invariant _ _ _ _ _ _ _ _ _ _ _ R). Qed.
+
 (* the initial vectors the entry points build (rho * ones; [1 if u in initial_infecteds else 0 ...] with the set
    renamed; X0 = 1 - Y0; XY0 = X0 x Y0 * A, XX0 = X0 x X0 * A with A the adjacency matrix in nodelist order) *)
 Theorem C14x_y0_rho_equivariant : forall rho, veq (y0_rho (map phi nl2) rho) (blk1 idx nl2 0 (y0_rho nodelist rho)).
@@ -300,6 +308,7 @@ Proof. exact ex_sim_nontrivial. Qed.
 Print Assumptions C14x_node_rhs_equivariant.
 Print Assumptions C14x_node_rhs_equivariant_b.
 Print Assumptions C14x_node_outputs_invariant.
+Print Assumptions C14x_node_complement_outputs_invariant.
 Print Assumptions C14x_y0_rho_equivariant.
 Print Assumptions C14x_y0_set_equivariant.
 Print Assumptions C14x_node_problem_equivariant.
